@@ -6,6 +6,7 @@ Import ListNotations.
 
 Check C18_intern_refines :
   forall ops, short ops -> exists s, impl_run init ops = Some s /\ abs s = spec_run ops.
+Check C18_refcount_no_underflow : forall ops, short ops -> impl_run init ops <> None.
 Check C18_eq_iff_content :
   forall ops s i j, short ops -> impl_run init ops = Some s ->
     impl_eq s i j = spec_eq (spec_run ops) i j.
